@@ -94,6 +94,10 @@ def render_isar_struct(draw, schema, st_, patch):
             if m.size % 2 == 0 and m.size > 2 and m.size_expr == str(m.size) and draw(st.booleans()):
                 parts.append('<member %s><dimension size="%d" size2="2"/></member>' % (attrs, m.size // 2))
                 forms.add('size2')
+            elif m.size_expr.isidentifier() and draw(st.booleans()):
+                # two-dimensional with a named extent: the parser hands "NAME*1" to the model-time evaluator
+                parts.append('<member %s><dimension size="%s" size2="1"/></member>' % (attrs, m.size_expr))
+                forms.add('size2-named')
             else:
                 parts.append('<member %s><dimension size="%s"/></member>' % (attrs, ir._xml(m.size_expr)))
                 forms.add('size')
@@ -232,6 +236,14 @@ def check_case(schema, xml, patch, vals, noise=()):
         if ta != tb or ta != (size, align, stiff):
             return ("%s: (size, alignment, stiffness) is %r from isar, %r from the prophy text, %r by the wire rules" % (
                 d.name, ta, tb, (size, align, stiff)), det)
+        # member for member the two models carry the same wire facts
+        ma, mb = getattr(a, 'members', []), getattr(b, 'members', [])
+        fa = [(m.name, getattr(m, 'numeric_size', None), m.byte_size, m.alignment, getattr(m, 'padding', None)) for m in ma]
+        fb = [(m.name, getattr(m, 'numeric_size', None), m.byte_size, m.alignment, getattr(m, 'padding', None)) for m in mb]
+        if fa != fb:
+            diff = [(x, y) for x, y in zip(fa, fb) if x != y][:2] or [(len(fa), len(fb))]
+            return ("%s: members (name, numeric size, byte size, alignment, padding) differ between the isar model and "
+                    "the prophy-text model: %r" % (d.name, diff), det)
     try:
         ns = pyh.load_module_text(py)
     except Exception as ex:
@@ -308,7 +320,7 @@ def body(case, stats):
 
 def gen_opts():
     return gen.GenOpts(big_sizes=False, min_decls=2, max_decls=8, allow_unset=False, aligned_greedy=False,
-                       const_ref_bias=4, avoid=common.avoid_set(ID), enum_aliases=False)
+                       const_ref_bias=3, const_exprs=True, avoid=common.avoid_set(ID), enum_aliases=False)
 
 
 def worker(widx, seed, tier, stats):
